@@ -23,7 +23,7 @@ MInit == Init /\ edits = <<>>
 Pick(i) ==
     /\ phase = "pick" /\ Len(hist) + 1 < MaxStages /\ i \in StageDocs(Len(hist) + 1)
     /\ hist' = Append(hist, [i |-> i, safe |-> TRUE])
-    /\ UNCHANGED <<heap, oroot, croot, proto, stack, ret, status, phase, nmut, nedit, last, otree, fired, edits>>
+    /\ UNCHANGED <<heap, oroot, croot, proto, stack, status, phase, nmut, nedit, last, otree, fired, edits>>
 
 \* the last source document: the tree exists now
 PickLoad(i, s) ==
@@ -52,7 +52,7 @@ MSpec == MInit /\ [][MNext]_mvars
 
 \* histories are witnesses only: two histories producing the same tree are the same state
 View == IF phase = "pick" THEN <<hist, phase>>
-        ELSE <<heap, oroot, croot, proto, stack, ret, status, phase, nmut, nedit, last, otree, fired>>
+        ELSE <<heap, oroot, croot, proto, stack, status, phase, nmut, nedit, last, otree, fired>>
 
 ----------------------------------------------------------------------------
 \* path of a cell below a root (child map first, then built-in-only entries)
